@@ -15,7 +15,14 @@ sys.path.insert(0, os.path.dirname(os.path.abspath(__file__)))
 import extract  # noqa: E402
 
 VERIF = extract.VERIF
-WORK = os.environ.get("VERIF_WORK", os.path.join(VERIF, ".work"))
+# Generated units are verified in a directory of this process's own: checks of different properties may run at the same time
+# and generate different texts under the same unit name (the vacuity canaries differ per property).  A copy of the last
+# generated text is kept under .work/<unit>.rs for inspection; that is the path recorded in the evidence.
+WORK_SHOWN = os.environ.get("VERIF_WORK", os.path.join(VERIF, ".work"))
+WORK = WORK_SHOWN if os.environ.get("VERIF_WORK") else os.path.join(WORK_SHOWN, f"p{os.getpid()}")
+if WORK != WORK_SHOWN:
+    import atexit, shutil as _sh
+    atexit.register(lambda: _sh.rmtree(WORK, ignore_errors=True))
 
 SEMANTIC = (
     "postcondition not satisfied",
@@ -107,6 +114,15 @@ def run_unit(unit, seed=None, rlimit=None, canary_for=None, extra_tag="", num_th
     gen = os.path.join(WORK, crate + ".rs")
     with open(gen, "w") as f:
         f.write(text)
+    shown = os.path.join(WORK_SHOWN, crate + ".rs")
+    if shown != gen:
+        try:
+            tmp_shown = shown + f".tmp{os.getpid()}"
+            with open(tmp_shown, "w") as f:
+                f.write(text)
+            os.replace(tmp_shown, shown)
+        except OSError:
+            pass
     res.gen_path = gen
     cmd = ["verus", gen, "--output-json", "--time-expanded", "--error-format=json", "--multiple-errors", "5"]
     if rlimit:
@@ -115,7 +131,7 @@ def run_unit(unit, seed=None, rlimit=None, canary_for=None, extra_tag="", num_th
         cmd += ["--smt-option", f"smt.random_seed={seed % 100000}"]
     if num_threads:
         cmd += ["--num-threads", str(num_threads)]
-    res.cmd = " ".join(cmd)
+    res.cmd = " ".join(cmd).replace(gen, shown)
     try:
         p = subprocess.run(cmd, cwd=WORK, capture_output=True, text=True, timeout=int(os.environ.get("VERIF_VERUS_TIMEOUT", "1500")))
     except subprocess.TimeoutExpired:
